@@ -4,6 +4,7 @@ use super::common::*;
 use super::*;
 use crate::spec::*;
 use crate::sys::*;
+use pvcore::refcodec::*;
 
 pub fn check(tier: Tier) -> Check {
     let parts = vec![Part::new(
@@ -20,12 +21,14 @@ pub fn check(tier: Tier) -> Check {
     // the client's own QoS 2 publishes use the same identifier values (1, 2, ...) - an independent
     // namespace: their PUBREC / PUBCOMP must not touch the inbound bookkeeping
     parts.push(Part::new("C09/qos2", json!({"depth": tier.pick(6, 7), "own": true}), 0, tier.pick(40, 400)));
+    // the bookkeeping across a reconnect: kept while the session lives, forgotten when it expired
+    parts.push(Part::new("C09/reset", json!({}), 0, 60));
     parts.push(Part::new("C09/wide", json!({"n": tier.pick(4096, 65535)}), 0, 300));
     Check {
         also_rel: false,
         property: "C09",
         level: "model_checking",
-        rule: "all sequences over {PUBLISH(QoS 2, id in {1,2} / {1,257} / {255,65535}, DUP 0/1), PUBREL(id in {1,2}), an unrelated QoS 1 PUBLISH} against one subscribed stream, also interleaved with two QoS 2 publishes of the client's own that carry the same identifier values and their PUBREC / PUBCOMP; the model keeps the set of identifiers awaiting PUBREL; plus deterministic runs over every identifier 1..=n at once (deliver all, re-deliver all, release all, twice, three orders); non-trivial = a re-delivery had to be suppressed".into(),
+        rule: "all sequences over {PUBLISH(QoS 2, id in {1,2} / {1,257} / {255,65535}, DUP 0/1), PUBREL(id in {1,2}), an unrelated QoS 1 PUBLISH} against one subscribed stream, also interleaved with two QoS 2 publishes of the client's own that carry the same identifier values and their PUBREC / PUBCOMP; the model keeps the set of identifiers awaiting PUBREL; plus the bookkeeping across a reconnect (an unreleased identifier is still a re-delivery after a resume of the live session, and a new message after an expired one); plus deterministic runs over every identifier 1..=n at once (deliver all, re-deliver all, release all, twice, three orders); non-trivial = a re-delivery had to be suppressed".into(),
         assumptions: vec![],
         parts,
     }
@@ -86,7 +89,87 @@ fn wide(name: String, params: Value) -> Scenario {
     })
 }
 
+/// An identifier that is unreleased when the connection is lost: after a resume of the live session a
+/// PUBLISH carrying it is still a re-delivery; after an expired session (everything forgotten, a new
+/// subscription made) it is a new message.
+fn reset(name: String, params: Value) -> Scenario {
+    Box::new(move |chz, ex| {
+        let expired = chz.choose(2) == 1;
+        let pid = [1u16, 300, 65535][chz.choose(3)];
+        let released_before = chz.choose(2) == 1;
+        let mut sys = Sys::new("C09", &name, chz);
+        sys.params = params.clone();
+        sys.auto_exit = false;
+        let spec = ConnectSpec {
+            client_id: Some("c09".into()),
+            session_expiry: if expired { None } else { Some(1000) },
+            ..Default::default()
+        };
+        let connack = |sp: bool| SPacket::Connack { session_present: sp, reason: 0, props: vec![] };
+        sys.connect_with(spec.clone(), connack(false));
+        if !sys.dead {
+            sys.start_run();
+        }
+        let mut sid = vec![];
+        if !expired {
+            // the subscription (and its stream) lives on in the resumed session
+            sys.apply(Ev::Start(OpSpec::Subscribe(SubscribeSpec::simple("s/a"))));
+            if sys.dead {
+                return sys.report(ex, &[]);
+            }
+            let ack = sys.ack_for(0, 0, "").unwrap();
+            sys.apply(Ev::Deliver(ack));
+            sys.apply(Ev::TakeStream(0));
+            sid.push(sys.m.subs[0].sub_id.unwrap());
+        }
+        sys.apply(Ev::Deliver(inbound(2, false, pid, &sid, "first")));
+        if released_before {
+            sys.apply(Ev::Deliver(pubrel_in(pid)));
+        }
+        sys.apply(Ev::Eof);
+        if sys.dead {
+            return sys.report(ex, &[]);
+        }
+        sys.events.push("MarkDisconnected(10s ago); Reconnect".into());
+        sys.classes.push("Reconnect".into());
+        sys.w.cmd(crate::world::CtxCmd::MarkDisconnected(10));
+        sys.w.new_wire();
+        sys.m.new_wire();
+        sys.connect_with(spec, connack(!expired));
+        if !sys.dead {
+            sys.events.push("Run(resume)".into());
+            sys.classes.push(format!("Resume(expired={})", expired));
+            sys.m.resume(expired);
+            sys.w.cmd(crate::world::CtxCmd::Run);
+            sys.sync();
+        }
+        if expired && !sys.dead {
+            sys.apply(Ev::Start(OpSpec::Subscribe(SubscribeSpec::simple("s/new"))));
+            if sys.dead {
+                return sys.report(ex, &[]);
+            }
+            let o = sys.m.ops.len() - 1;
+            let ack = sys.ack_for(o, 0, "").unwrap();
+            sys.apply(Ev::Deliver(ack));
+            sys.apply(Ev::TakeStream(o));
+            let sb = sys.m.ops[o].sub.unwrap();
+            sid = vec![sys.m.subs[sb].sub_id.unwrap()];
+        }
+        // the same identifier again: re-delivery (live session, not yet released) or a new message
+        sys.apply(Ev::Deliver(inbound(2, true, pid, &sid, "again")));
+        sys.apply(Ev::Deliver(pubrel_in(pid)));
+        sys.apply(Ev::Deliver(inbound(2, false, pid, &sid, "reused")));
+        sys.apply(Ev::Deliver(pubrel_in(pid)));
+        sys.finish();
+        sys.m.hits.push("qos2-across-reconnect");
+        sys.report(ex, &["qos2-across-reconnect"]);
+    })
+}
+
 pub fn scenario(name: &str, params: &Value) -> Scenario {
+    if name == "C09/reset" {
+        return reset(name.to_string(), params.clone());
+    }
     if name == "C09/wide" {
         return wide(name.to_string(), params.clone());
     }
